@@ -92,7 +92,13 @@ var errBudget = errors.New("simulation budget exceeded")
 const (
 	noteOp    = 0 // 1 + index of the operation the task is executing, 0: none
 	noteFired = 1 // the fault of that operation has fired
+	noteCap   = 2 // the operation exceeded the per-operation cap on client calls: number of live tasks then
 )
+
+// livelockFactor: an undisturbed operation that makes more than this many
+// times the client calls of the serial reference for the same root (and hits
+// the per-operation cap) is reported as not terminating.
+const livelockFactor = 100
 
 // errInjected is what a client call answers when the fault plan of the
 // running operation says so: a transient failure of the (simulated) network
@@ -169,6 +175,11 @@ func (c *simClient) enter(label string) error {
 	t := s.CurTask()
 	c.calls[t]++
 	if c.calls[t] > c.maxCall {
+		if !s.IsAborted() {
+			// this task's operation hit the per-operation cap first; remember
+			// how many tasks were still alive at that moment
+			s.SetNote(t, noteCap, int64(s.LiveTasks()))
+		}
 		s.Abort()
 		if c.cancels[t] != nil {
 			c.cancels[t]()
